@@ -39,6 +39,9 @@ type timerSet struct {
 var timerSets = []timerSet{
 	{T3: 3 * time.Second, T6: 2 * time.Second, T7: 5 * time.Second, T8: 1 * time.Second, WT: 1500 * time.Millisecond, LT: 7 * time.Second},
 	{T3: 2500 * time.Millisecond, T6: 3 * time.Second, T7: 6 * time.Second, T8: 2 * time.Second, WT: 700 * time.Millisecond, LT: 9 * time.Second},
+	// only for scenario resel-mute: a linktest interval well below T7, so that a session can stay
+	// deselected for longer than one interval without T7 ending the link
+	{T3: 3 * time.Second, T6: 2 * time.Second, T7: 12 * time.Second, T8: 1 * time.Second, WT: 1500 * time.Millisecond, LT: 4 * time.Second},
 }
 
 // bcfg is one reconnect-backoff configuration (T5 stays 4 s).
